@@ -418,9 +418,13 @@ def step (line impl : String) : String × Verdict :=
         | none => .skip "unparsed impl output"
         | some (_, _, _, rows) =>
           let specRows := Spec.Units.rows.filter (fun r => r.qty == qual)
+          -- a unit the independent definition table does not know cannot be judged: it is not a failing
+          -- input (the theorem over the regenerated table breaks and reports it)
+          let unknown := rows.filter (fun (row : RegRow A) =>
+            (specRows.find? (fun r => UnitSpec.spaced r.ident == row.name)).isNone)
           let bad := rows.filterMap (fun (row : RegRow A) =>
             match specRows.find? (fun r => UnitSpec.spaced r.ident == row.name) with
-            | none => some (Text.toString row.name ++ " (no published definition)")
+            | none => none
             | some r =>
               let symOk := r.symbol == row.symbol
               let pfxOk := (r.pfx.map Text.toString) == row.pfx
@@ -440,10 +444,13 @@ def step (line impl : String) : String × Verdict :=
                 | _, _ => false
               if symOk && pfxOk && identOk && scaleOk then none
               else some (Text.toString row.name))
-          let missing := specRows.length != rows.length
-          if bad.isEmpty && !missing then .ok
-          else .fail ("units not matching their published definition: " ++ ", ".intercalate bad
-                      ++ (if missing then " (unit count differs from the definition table)" else ""))
+          let missing := specRows.length > rows.length - unknown.length
+          if !bad.isEmpty || missing then
+            .fail ("units not matching their published definition: " ++ ", ".intercalate bad
+                      ++ (if missing then " (a published unit is missing)" else ""))
+          else if !unknown.isEmpty then
+            .skip ("units without a row in the definition table: " ++ ", ".intercalate (unknown.map (fun r => Text.toString r.name)))
+          else .ok
       (out, v)
   | "rate" :: tq :: pq :: ta :: tu :: pm :: pu :: op :: rest =>
     match W.find tq, W.find pq, C.parse ta, tu.toNat?, C.parse pm, pu.toNat? with
